@@ -302,7 +302,9 @@ def run(ctx):
     full = optrig.alphabet(small=False)
     for _ in range(1500 if quick else 30000):
         seqs.append(optrig.random_sequence(ctx.rng, sig, full, ctx.rng.randint(3, 12)))
-    reqs = [{'op': 'optimize', 'existing': existing, 'mutations': [sigs.model_mutation(m) for m in s]} for s in seqs]
+    copies = bool(ctx.variant.get('optimizer_copies'))
+    reqs = [{'op': 'optimize', 'existing': existing, 'copies': copies,
+             'mutations': [sigs.model_mutation(m) for m in s]} for s in seqs]
     outs = ctx.driver.ask(reqs) if ctx.driver else [None] * len(seqs)
     witnesses = {}
     rewritten_of = {}
